@@ -93,6 +93,7 @@ pub fn run_case(case: &Case, want_log: bool) -> RunResult {
             "crash" => crate::crash::run(&mut cx).await,
             "corrupt" => crate::corrupt::run(&mut cx).await,
             "fault" => crate::fault::run(&mut cx).await,
+            "sched" => crate::sched::run(&mut cx).await,
             other => cx.harness_error = Some(format!("no engine {other} for {}", case.prop)),
         }
     });
